@@ -1903,14 +1903,8 @@ def remove_matrixzeros_sinex(sinex):
         for line in solution_matrix_estimate:
             col = line.split()
             numCol = len(col)
-            if numCol==3:
-                if col[2]=="0.00000000000000e+00":
-                    continue
-            if numCol==4:
-                if col[2]=="0.00000000000000e+00" and col[3]=="0.00000000000000e+00":
-                    continue
-            if numCol==5:
-                if col[2]=="0.00000000000000e+00" and col[3]=="0.00000000000000e+00" and col[4]=="0.00000000000000e+00":
+            if line[:1]==" " and 3<=numCol<=5:
+                if all(float(val)==0 for val in col[2:]):
                     continue
             out.write(f"{line}\n")
         del solution_matrix_estimate
